@@ -264,11 +264,17 @@ fn trial_interleave(cx: &mut Ctx, seed: u64) {
     }
     let menu = api::hashes15(32);
     let mut insts: Vec<Inst> = Vec::new();
+    // half of the cipher instances share one key/nonce seed: distinct instances (of the same or
+    // of different variants) built from identical parameters must still not see each other
+    let shared = r.u64();
     for _ in 0..k {
         if r.below(3) == 0 {
             let ty = api::CIPHERS[r.below(7) as usize];
             let (layout, dr, nlen) = api::cipher_params(ty);
-            let (key, nonce) = super::key_nonce(r.u64(), nlen);
+            let kseed = if r.below(2) == 0 { shared } else { r.u64() };
+            // same seed => same key, and the shorter nonces are prefixes of the longer ones
+            let (key, n24) = super::key_nonce(kseed, 24);
+            let nonce = n24[..nlen].to_vec();
             insts.push(Inst::C(ty, api::new_cipher(ty, &key, &nonce), RefStream::new(layout, dr, &key, &nonce), 0));
         } else {
             let id = if cfg!(miri) { menu[r.below(12) as usize] } else { *r.pick(&menu) };
